@@ -49,6 +49,8 @@ CHECKS = {
          "two scripted level 2 neighbours (adjacency kept Up by hellos) send LSPs (sequence 1..6, lifetimes 20..1200 s, also copies of the DUT's own LSP), CSNPs and PSNPs listing same / older / newer / unknown LSPs while the clock advances up to 1900 s. After every step the DUT's database (sequence numbers, lifetimes within 2 s) and its SRM/SSN flags per circuit (overlay accessor) must equal the reference model of ISO 10589 7.3.15-7.3.16, the LSPs and PSNP entries sent at every 5 s tick must be exactly the ones flagged, the own LSP must always be present with lifetime > 0 (refresh) and above any copy received from the network"),
  "C33": ("isissim", "5/C33", "deterministic simulation with fault injection: seeded link up/down sequences on active and passive interfaces, from every initial device state",
          "1-2 active and optionally a passive IS-IS interface start with a device that is up, down or not known yet; up to 6 link events (also redundant ones) interleaved with clock advances and hellos; afterwards every active interface is brought up and a neighbour performs the handshake. No panic in DeviceUpdate / Start / AddInterface / the API or any server goroutine (a crash is a violation), every event returns, hellos are sent again after the last link-up and the adjacency reaches Up"),
+ "C36": ("cfgsim", "5/C36", "deterministic simulation with a metamorphic twin run: configurations reloaded into a live BGP server vs. a fresh start with the last one",
+         "the real reload path of cmd/bio-rd (config.GetConfig on a YAML file, loadConfig, bgpConfigurator) runs inside the simulation against the real BGP server (the engine is a test binary of package main, its test file comes from the overlay). Configurations from a bounded grammar (1-2 groups, 2-5 neighbours, inherited and overridden hold time / import / export policies / TTL / add-path family block / multiprotocol / RR client / disabled, neighbours added, removed and moved between groups) are loaded one after the other while scripted neighbours hold established sessions, reconnect when the DUT restarts them and re-announce; a twin run starts fresh with the last configuration. Both must end with the same configured peers, the same PeerConfig per peer, the same OPEN on the current connection, the same Loc-RIB and the same Adj-RIB-Outs"),
  "C05": ("bgpsim", "5/C05", "deterministic simulation: stage-wise reference import model over seeded histories with session flaps",
          "seeded simulated histories (announce / implicit replace / withdraw, add-path RX on/off, iBGP/eBGP, accept/reject-some/rewriting import policies, clean session flaps and re-establishment, fragmentation, delay) against the real FSMs and tables; at every quiescent checkpoint the Loc-RIB paths of each source must equal reference-import(actual Adj-RIB-In dump)"),
  "C06": ("bgpsim", "5/C06", "deterministic simulation: generator-labelled ineligible announcements, invariant after every step",
